@@ -2,6 +2,7 @@ package rules
 
 import (
 	"fmt"
+	"go/token"
 	"strings"
 
 	"golang.org/x/tools/go/ssa"
@@ -15,14 +16,14 @@ import (
 // from a node that did not decode).
 
 func init() {
-	Register(&Rule{ID: "ERRFLOW", Props: []string{"C03", "C05", "C19", "C06", "C12", "C01"}, Min: 40,
+	Register(&Rule{ID: "ERRFLOW", Props: []string{"C03", "C05", "C19", "C06", "C12", "C01", "C07"}, Min: 40,
 		Doc: "every call in package mast that may return a non-nil error (a repository function with an error-carrying return, Persist.Load/Store, a user callback returning error) " +
-			"has its error result used, and no nil-error return is reachable on its non-nil edge (the error is returned, wrapped, or recorded); one tabled exception (alreadyNotified answers 'not notified', its caller re-loads the same link).",
+			"has its error result used, and no nil-error return is reachable on its non-nil edge (the error is returned, wrapped, or recorded); an error stashed by a closure in a captured variable (the predicate of sort.Search) must be looked at after the call that ran the closure; one tabled exception (the assertion validateNode, which has no error result).",
 		Run: runERRFLOW})
 }
 
 var errflowExceptions = map[string]string{
-	"(*Mast).alreadyNotified": "a load or layer failure makes the function answer 'not notified'; the caller then loads the same link itself and propagates the same error",
+	"validateNode": "an internal assertion with no error result: when the comparison callback fails it asserts nothing about the order and returns; the operation's own comparisons report a failing callback (before repair f69a777 it panicked with the callback's error)",
 }
 
 func runERRFLOW(c *Ctx) {
@@ -81,11 +82,17 @@ func runERRFLOW(c *Ctx) {
 			}
 			if ir.ErrorResultIndex(fn.Signature) < 0 {
 				// the enclosing function cannot return an error: it must record it (flush's worker) or panic
-				if recordsOrPanics(errV) {
+				if fn.Parent() != nil && closureIsArgument(fn) {
+					// closures passed to sort.Search etc. that stash the error in a captured variable: the enclosing
+					// function must look at that variable after the call that ran the closure
+					if at, ok := stashChecked(fn, errV); ok {
+						c.OK(pos, what, "stored into a captured variable by a closure; the enclosing function tests it afterwards ("+P.InstrPos(at)+")", false)
+					} else {
+						c.Violation(fn, pos, "error of "+name+" stashed by a closure and never looked at",
+							"the closure records the callback's error in a variable of the enclosing function, which goes on without testing it after the call that ran the closure: the search ends at a wrong position and the operation continues there (an Insert puts the key out of order) instead of reporting the failure")
+					}
+				} else if recordsOrPanics(errV) {
 					c.OK(pos, what, "recorded in a variable / escalated by panic (enclosing function has no error result)", false)
-				} else if fn.Signature.Results().Len() == 1 && fn.Parent() != nil {
-					// closures passed to sort.Search etc. that stash the error in a captured variable
-					c.OK(pos, what, "stored into a captured variable by a closure", false)
 				} else {
 					c.Violation(fn, pos, "error of "+name+" cannot be reported", "the enclosing function has no error result and neither records nor escalates this error")
 				}
@@ -199,4 +206,164 @@ func exceptionFor(c *Ctx, fn *ssa.Function, table func(name string) (string, boo
 		why = w + " (private helper of " + ir.FuncName(ir.Outermost(cs.Parent())) + ")"
 	}
 	return why, true
+}
+
+// stashChecked: errV, an error produced inside closure fn, is stored into a variable captured from the enclosing
+// function; that function passes the closure to a call and, after that call, tests the variable for nil on every
+// path before it returns success (a nil-error return is not reachable from the call without crossing the nil edge
+// of such a test).
+func stashChecked(fn *ssa.Function, errV ssa.Value) (ssa.Instruction, bool) {
+	parent := fn.Parent()
+	if parent == nil {
+		return nil, false
+	}
+	// the captured cell(s) the error may be stored into (directly or after wrapping)
+	cells := map[ssa.Value]bool{}
+	var mark func(v ssa.Value, d int)
+	seen := map[ssa.Value]bool{}
+	mark = func(v ssa.Value, d int) {
+		if d > 4 || seen[v] || v.Referrers() == nil {
+			return
+		}
+		seen[v] = true
+		for _, r := range *v.Referrers() {
+			switch x := r.(type) {
+			case *ssa.Store:
+				if x.Val == v {
+					if fv, ok := x.Addr.(*ssa.FreeVar); ok {
+						cells[bindingOf(fv)] = true
+					}
+				}
+			case *ssa.Phi:
+				mark(x, d+1)
+			case *ssa.MakeInterface:
+				mark(x, d+1)
+			case *ssa.ChangeInterface:
+				mark(x, d+1)
+			case ssa.CallInstruction:
+				// fmt.Errorf("...%w", err): the wrapped error carries it on
+				if cv := x.Value(); cv != nil {
+					mark(cv, d+1)
+				}
+			case *ssa.Slice, *ssa.IndexAddr:
+			}
+		}
+	}
+	mark(errV, 0)
+	// the error also reaches the variable through the varargs slice of fmt.Errorf: follow stores into local arrays
+	for _, b := range fn.Blocks {
+		for _, ins := range b.Instrs {
+			if st, ok := ins.(*ssa.Store); ok {
+				if fv, ok := st.Addr.(*ssa.FreeVar); ok && ir.IsErrorType(st.Val.Type()) {
+					// any error stored into a captured error variable by this closure counts: the closure's failure paths
+					// all funnel into that variable
+					cells[bindingOf(fv)] = true
+				}
+			}
+		}
+	}
+	if len(cells) == 0 {
+		return nil, false
+	}
+	// the call in the parent that is handed the closure
+	var runs []ssa.CallInstruction
+	for _, b := range parent.Blocks {
+		for _, ins := range b.Instrs {
+			ci, ok := ins.(ssa.CallInstruction)
+			if !ok {
+				continue
+			}
+			for _, a := range ci.Common().Args {
+				if mc, ok := a.(*ssa.MakeClosure); ok && mc.Fn == ssa.Value(fn) {
+					runs = append(runs, ci)
+				}
+			}
+		}
+	}
+	if len(runs) == 0 {
+		return nil, false
+	}
+	pei := ir.ErrorResultIndex(parent.Signature)
+	if pei < 0 {
+		return nil, false
+	}
+	var testAt ssa.Instruction
+	for _, run := range runs {
+		// search from the call: do not cross the nil edge of a test of a load of the cell; a success return reached
+		// otherwise means the variable was not looked at
+		seenB := map[*ssa.BasicBlock]bool{}
+		bad := false
+		var visit func(b *ssa.BasicBlock, from int)
+		visit = func(b *ssa.BasicBlock, from int) {
+			if bad {
+				return
+			}
+			if from == 0 {
+				if seenB[b] {
+					return
+				}
+				seenB[b] = true
+			}
+			for i := from; i < len(b.Instrs); i++ {
+				switch x := b.Instrs[i].(type) {
+				case *ssa.Return:
+					if ir.IsNilConst(ir.ForwardLoad(x.Results[pei])) {
+						bad = true
+					}
+					return
+				case *ssa.Panic:
+					return
+				case *ssa.If:
+					if tv, tnn, ok := ir.NilTest(x.Cond); ok {
+						if ld, isLd := tv.(*ssa.UnOp); isLd && ld.Op == token.MUL && cells[ld.X] {
+							testAt = x
+							// only the non-nil edge continues the "error is pending" search
+							if tnn {
+								visit(b.Succs[0], 0)
+							} else {
+								visit(b.Succs[1], 0)
+							}
+							return
+						}
+					}
+				}
+			}
+			for _, s := range b.Succs {
+				visit(s, 0)
+			}
+		}
+		blk := run.Block()
+		idx := 0
+		for i, ins := range blk.Instrs {
+			if ins == ssa.Instruction(run) {
+				idx = i + 1
+			}
+		}
+		visit(blk, idx)
+		if bad {
+			return nil, false
+		}
+	}
+	return testAt, testAt != nil
+}
+
+// closureIsArgument: the anonymous function is handed to a call of its enclosing function (a predicate run
+// synchronously by that call), as opposed to being started with go/defer or called in place.
+func closureIsArgument(fn *ssa.Function) bool {
+	parent := fn.Parent()
+	if parent == nil {
+		return false
+	}
+	for _, b := range parent.Blocks {
+		for _, ins := range b.Instrs {
+			if ci, ok := ins.(*ssa.Call); ok {
+				for _, a := range ci.Call.Args {
+					if mc, ok := a.(*ssa.MakeClosure); ok && mc.Fn == ssa.Value(fn) {
+						return true
+					}
+				}
+			}
+		}
+	}
+	return false
 }
